@@ -50,6 +50,7 @@ PROPS.update({
     "C14": _gen("c14", False),
     "C19": _gen("c19", False),
     "C18": _gen("c18", False),
+    "C09": _gen("c09", False, ["heap use is measured with a counting global allocator (peak of live bytes during one decode); the model counts reservations (HReal); for B-trees the model charges one node per element (an upper envelope of std's node-by-node growth)"]),
     "C20": dict(_gen("c20", False), custom=__import__("c20").run, harness_timeout=3000),
     "C06": _gen("c06", False),
     "C16": dict(_gen("c16", False), pre=__import__("c16_inventory").hook),
